@@ -68,11 +68,11 @@ func validateJSONPatches(patches []byte) error {
 			return fmt.Errorf("%s: path is not a JSON pointer", patch.JSONPatch)
 		}
 
-		if strings.HasPrefix(path, "/"+document.ServiceProperty) {
+		if refersTo(path, document.ServiceProperty) {
 			return fmt.Errorf("%s: cannot modify services", patch.JSONPatch)
 		}
 
-		if strings.HasPrefix(path, "/"+document.PublicKeyProperty) {
+		if refersTo(path, document.PublicKeyProperty) {
 			return fmt.Errorf("%s: cannot modify public keys", patch.JSONPatch)
 		}
 
@@ -107,13 +107,19 @@ func validateMoveFrom(opMsg, fromMsg *json.RawMessage) error {
 		return nil
 	}
 
-	if strings.HasPrefix(from, "/"+document.ServiceProperty) {
+	if refersTo(from, document.ServiceProperty) {
 		return fmt.Errorf("%s: cannot modify services", patch.JSONPatch)
 	}
 
-	if strings.HasPrefix(from, "/"+document.PublicKeyProperty) {
+	if refersTo(from, document.PublicKeyProperty) {
 		return fmt.Errorf("%s: cannot modify public keys", patch.JSONPatch)
 	}
 
 	return nil
+}
+
+// refersTo reports whether a JSON pointer refers to the given top-level member or to something inside it
+// (and not to another member whose name merely begins the same way, such as 'services' or 'publicKeys').
+func refersTo(pointer, member string) bool {
+	return pointer == "/"+member || strings.HasPrefix(pointer, "/"+member+"/")
 }
